@@ -13,7 +13,7 @@ BAD_CHAR_PREDICATES = ("is_numeric", "is_alphanumeric", "is_alphabetic", "is_dig
 def run(chk, tier):
     P = Prog("default")
     chk.configs.add("default")
-    for r in (r_reader_shape, r_offset_bound, r_entry, r_writer, r_ascii, r_absint, r_flow):
+    for r in (r_reader_shape, r_offset_bound, r_entry, r_writer, r_year_box, r_ascii, r_absint, r_flow):
         chk.guarded(r, P, tier)
     chk.assume("that the accepted language equals the RFC 3339 grammar for every string, the values returned and the round trip are NOT decided; the grammar side is specs (appendix A.5)")
     return {
@@ -115,6 +115,25 @@ def r_entry(chk, P, tier):
         ok = ok and bool(empt)
     too_long = any(result_variant(p.ret)[0] == "Err" and any(x[0] == "named" and x[1].endswith("TOO_LONG") for x in walk_terms(p.ret)) for p in Sym(P, fn).paths() if p.end[0] == "return" and p.ret)
     chk.expect(ok and too_long, "parse_from_rfc3339", "parse_from_rfc3339: remainder check / TOO_LONG / to_datetime missing", loc=P.loc(fn))
+
+
+def r_year_box(chk, P, tier):
+    """RFC 3339 `date-fullyear = 4DIGIT`: exactly the years 0..=9999 take the plain four-digit form; the reader (and C09) rely on the same split"""
+    chk.rule("BOX.plain_year", "write_rfc3339 uses the plain four-digit year form exactly for 0..=9999 (range test on year())", floor=1)
+    rngs = set()
+    for p in Sym(P, WR).paths():
+        for t in [c[1] for c in p.conds]:
+            for x in walk_terms(t):
+                if x[0] == "call" and isinstance(x[1], str) and x[1].endswith("::contains") and "Range" in x[1] and any(is_call(y, suffix="::year") for y in walk_terms(x[2][1])):
+                    from rules import unref
+                    r = const_of(unref(x[2][0]))
+                    if isinstance(r, tuple):
+                        fs = dict(dict(r).get("fields", ()))
+                        lo, hi = fs.get("start"), fs.get("end")
+                        rngs.add((lo, hi if "Inclusive" in x[1] else (hi - 1 if isinstance(hi, int) else hi)))
+    if not rngs:
+        raise AnchorLost("write_rfc3339: no range test on year()")
+    chk.expect(rngs == {(0, 9999)}, "year range", "write_rfc3339 takes the four-digit form for years in %s, expected exactly 0..=9999" % sorted(rngs), loc=P.loc(WR))
 
 
 def r_writer(chk, P, tier):
